@@ -83,7 +83,18 @@ func runSubBin(bin, id, tags string, args ...string) (*SubResult, error) {
 	var stdout, stderr bytes.Buffer
 	cmd.Stdout, cmd.Stderr = &stdout, &stderr
 	if err := cmd.Run(); err != nil {
-		return nil, fmt.Errorf("sub-build %q run failed: %v\n%s", tags, err, stderr.String())
+		se := stderr.String()
+		if strings.Contains(se, "fatal error") && strings.Contains(se, "mlange-42/ark/ecs") {
+			// the implementation killed the process: report it as a finding of this sub mode
+			i := strings.Index(se, "fatal error")
+			lines := strings.Split(se[i:], "\n")
+			if len(lines) > 16 {
+				lines = lines[:16]
+			}
+			return &SubResult{Tags: tags, Violations: []drv.Violation{{Kind: "crash", OpKind: "crash",
+				Msg: fmt.Sprintf("sub mode %s %v (build tags %q) was killed by a Go fatal error inside package ecs:\n%s", id, args, tags, strings.Join(lines, "\n"))}}}, nil
+		}
+		return nil, fmt.Errorf("sub-build %q run failed: %v\n%s", tags, err, se)
 	}
 	var r SubResult
 	if err := json.Unmarshal(stdout.Bytes(), &r); err != nil {
